@@ -44,8 +44,18 @@ func patBytes(r *prng.R, n int) []byte {
 		copy(b[12:], r.Bytes(4))
 		return b
 	}
-	switch r.Intn(8) {
+	switch r.Intn(10) {
 	case 0:
+	case 8, 9: // as an integer of that width: boundary values and the constants of the tree under test
+		if n >= 1 && n <= 8 {
+			v := r.Bits(8 * n)
+			for i := n - 1; i >= 0; i-- {
+				b[i] = byte(v)
+				v >>= 8
+			}
+		} else {
+			b = r.Bytes(n)
+		}
 	case 1:
 		for i := range b {
 			b[i] = 0xff
@@ -352,7 +362,7 @@ func ActionOfKind(r *prng.R, kind string, o ActOpt) *rec.Rec {
 		a.SetB("_order", ord)
 		a.SetBool("_ip16", r.Chance(1, 3))
 	}
-	return a
+	return withDefaults(r, a)
 }
 
 var learnKinds = []string{"match_field", "match_value", "load_field", "load_value", "output_field"}
